@@ -19,10 +19,13 @@ CHECKS = {
              "must agree on predict_expectations, arms, and every sampler request (kind, stream, parameters).",
         ref="7 (C01)"),
     "C02": dict(
-        text="Lean 4 proof (full for scale=False, exact arithmetic): lin_statistics/stat_linear (after any history each arm's model holds "
-             "A = lambda*I + sum x x^T and Xty = sum y x over exactly its rows; inverse and coefficients derived), linucb_columns, "
-             "reshape_rowwise + squeeze_counterexample (all m, d), k1_counterexample (known finding K1). np.linalg.inv = exact inverse with "
-             "run-time certificate A*Ainv = I; scale=True only by the numpy.linalg.solve oracle twin. Correspondence d in 1..3, m in 1..5.",
+        text="Lean 4 proof (full for scale=False, exact arithmetic): lin_statistics/stat_linear (after any history each arm's model "
+             "holds A = lambda*I + sum x x^T and Xty = sum y x over exactly its rows), inverse_certificate + ridge_closed_form + "
+             "beta_unique_solution (the list matrices read as Mathlib matrices: a model whose stored inverse passes the certificate "
+             "'square, A*B = I' - re-checked by the driver for every fitted arm model on every run - has B = A^-1, coefficients "
+             "(X'X+lambda I)^-1 X'y, the unique solution of the normal equations), linucb_bonus_quadratic_form, linucb_columns, "
+             "reshape_rowwise + squeeze_counterexample (all m, d), k1_counterexample (known finding K1). scale=True only by the "
+             "numpy.linalg.solve oracle twin (single fit, small-unit features, > 2^10 rows). Correspondence d in 1..3, m in 1..5.",
         ref="7 (C02)"),
     "C03": dict(
         text="Lean 4 proof (full for exact metrics): radius_exact (selected rows = exactly those within the radius, boundary included), "
@@ -39,27 +42,39 @@ CHECKS = {
              "scenarios alone / under PYTHONHASHSEED 0, 1, random / interleaved with other bandits sharing policy tuple objects.",
         ref="7 (C04)"),
     "C05": dict(
-        text="Lean 4 proof (partial): partition_exact_cover (for all n>=1, n_jobs!=0, cpu: sizes positive, sum n, starts = prefix sums), "
-             "chunked_map / predict_any_partition (every contiguous partition with a row-local worker gives the row-wise results), "
-             "fit_tasks_commute (per-arm fit tasks in any order give the same model). Real scheduling, processes and pickling cannot "
-             "be exhibited by the model; they are sampled: exhaustive _partition_contexts table vs model, _predict_contexts whole vs "
-             "row-by-row with equal seeds, _fit_arm in all task orders, n_jobs x backend twins.",
+        text="Lean 4 proof (partial): partition_exact_cover (for all n>=1, n_jobs!=0, cpu: sizes positive, sum n, starts = prefix "
+             "sums), chunked_map / predict_any_partition, chunk_split_all + predictChunk_eq_chunkFold_all (Radius / KNearest / "
+             "LSHNearest: any contiguous split of the query rows gives the single-worker outputs, draws and requests, for every "
+             "learning policy incl. Thompson, Random, LinTS), cluster_chunk_split (Clusters), fit_tasks_commute (per-arm fit tasks "
+             "in any order give the same model). TreeBandit with randomised leaf policies is known finding K3. Real scheduling, "
+             "processes and pickling cannot be exhibited by the model; they are sampled: exhaustive _partition_contexts table vs "
+             "model, _predict_contexts whole vs row-by-row with equal seeds (data-dependent metrics included), _fit_arm in all task "
+             "orders, n_jobs x backend twins, query batches of 2^k+1 rows.",
         ref="7 (C05)"),
     "C06": dict(
-        text="Lean 4 proof (full for exact arithmetic): incremental_eq_batch - from any reachable state, fit on a prefix + partial_fit on "
-             "any chunking leaves the same learned record per arm as one fit on the concatenation, for every policy kind incl. linear "
-             "(A, Xty, inverse, coefficients). Correspondence on chunked histories; batch-vs-chunked twins bit-for-bit (1e-9 linear).",
+        text="Lean 4 proof (full, exact arithmetic): fit_partialFit_append - (s.fit b1).partialFit b2 = s.fit (b1 ++ b2) as an "
+             "equality of whole policy states (statistics, expectations, Softmax / Popularity shares, statuses, models, counters), "
+             "every policy kind, with or without binarizer; chunked_eq_batch_full / incremental_eq_batch_full for every chunking "
+             "from every reachable state; incremental_eq_batch, neighbors_history, lshInv_partialFit (bucket contents with index "
+             "offsets). Correspondence on chunked histories; batch-vs-chunked twins bit-for-bit (1e-9 linear), chunks beyond 2^10 "
+             "rows.",
         ref="7 (C06)"),
     "C07": dict(
-        text="Lean 4 proof (full at policy level): fit_discards - fit(D) on any state equals fit(D) on any state with the same configuration "
-             "and arms, in particular a fresh one (fit_after_history_eq_fresh). Neighbourhood-level resets (history, hash tables and planes, "
-             "clusters, trees) are transcribed in the model and tied by correspondence on refit scenarios and refit-vs-fresh twins.",
+        text="Lean 4 proof (full): fit_discards - fit(D) on any state equals fit(D) on any state with the same configuration and "
+             "arms, in particular a fresh one (fit_after_history_eq_fresh); fit_then_predictExp_congr (same outputs and draws "
+             "whatever was learned or drawn before); facade level impFit_neighbors_congr (stored history), impFit_lsh_congr (planes "
+             "drawn from the same stream position, tables rebuilt), impFit_clusters_congr (labels, every cluster policy), "
+             "impFit_tree_congr (leaf stores), impFit_none_congr. Tied by correspondence on refit scenarios and refit-vs-fresh twins "
+             "(same-shape refits with a query in between, integer-typed contexts).",
         ref="7 (C07)"),
     "C08": dict(
-        text="Lean 4 proof (full): keys_eq_arms (dictionary keys = current arms in arm-list order after any history; arm list follows the "
-             "specification), predictExp_keys (every returned dictionary has those keys, any tape), predict_mem, unwrap_shape. "
-             "Correspondence compares arms, key order and result shape after every step (int/float/str labels); invariant twin under "
-             "n_jobs in {1,2,3}.",
+        text="Lean 4 proof (full): keys_eq_arms, predictExp_keys_all (every learning policy, exploring rows included), nhoodRow_keys "
+             "(Radius / KNearest / LSHNearest rows incl. empty neighbourhoods), facade invariant BInv with binv_step / "
+             "binv_reachable (after any history of accepted or rejected calls the arm list is duplicate-free, the policy - every "
+             "cluster policy under Clusters - is well-formed over exactly the arms, the neutral-expectation dictionary and "
+             "TreeBandit leaf stores are keyed by exactly the arms), query_outputs_over_arms, predict_mem, unwrap_shape. "
+             "Correspondence compares arms, key order and result shape after every step (int/float/str labels, prefix-related "
+             "strings); invariant twin under n_jobs in {1,2,3} and query batches of 2^k(+1) rows.",
         ref="7 (C08)"),
     "C09": dict(
         text="Lean 4 proof (full): argmax_first (first key attaining the maximum, any total transitive comparison), predict_eq_argmax "
@@ -67,26 +82,32 @@ CHECKS = {
              "predict vs predict_expectations on deep copies incl. exact ties.",
         ref="7 (C09)"),
     "C10": dict(
-        text="Lean 4 proof (full in the model): predictExp_readonly / query_readonly - a query returns the identical bandit state except the "
-             "remembered last Thompson draw (never read). Worker deep copies are values in the model; their privacy in the code is tied by "
-             "correspondence and by queried-vs-unqueried twins with random-stream positions copied across, n_jobs in {1,2}.",
+        text="Lean 4 proof (full in the model): step_norm / norm_bisim / queried_indistinguishable - forgetting the last Thompson "
+             "draw commutes with every facade operation, so a bandit that answered any queries produces the same errors, outputs and "
+             "sampler requests as the unqueried one under every later history, for every learning and neighbourhood policy "
+             "(predictExp_readonly, impPredict_readonly). Worker deep copies are values in the model; their privacy in the code is "
+             "tied by correspondence and by queried-vs-unqueried twins with random-stream positions copied across (query - warm "
+             "start - query families), n_jobs in {1,2}.",
         ref="7 (C10)"),
     "C11": dict(
         text="Lean 4 proof (full for n_dimensions <= 53): hash_scale_invariant (c>0 changes no sign, hence no hash code), "
-             "hash_zero_projection, planes_fixed_at_fit, lsh_partial_hist (offsets), lsh_nhood_union (neighbourhood = de-duplicated union "
-             "of the query's buckets over the tables). Correspondence with planes from the recorded standard_normal draws; twin against the "
+             "hash_zero_projection, planes_fixed_at_fit, lshInv_fit / lshInv_partialFit (bucket invariant with index offsets), "
+             "lsh_nhood_exact (neighbourhood = exactly the stored rows colliding in at least one table), self_collision. Correspondence with planes from the recorded standard_normal draws; twin against the "
              "collision set computed from table_to_plane, scaling metamorphic, n_jobs in {1,2,3} for hashing.",
         ref="7 (C11)"),
     "C12": dict(
         text="Lean 4 proof (full modulo the assignment oracle): clusters_cell_rows / clusters_cell_from_scratch (each cluster's policy = fresh "
              "policy fit on exactly the stored rows labelled with it), clusters_query_cell, tree_unobserved_arm (0 without observations), "
-             "tree leaf bookkeeping. k-means and CART are trusted oracles. Correspondence with labels_/predict/apply read from sklearn; twin "
+             "tree_fit_leaf / tree_partialFit_leaf / tree_leaf_exact (per arm and leaf exactly that arm's rewards of that leaf; a query "
+             "reads the list of its own leaf). k-means and CART are trusted oracles. Correspondence with labels_/predict/apply read from sklearn; twin "
              "against a fresh policy on the query's cell / the leaf statistic.",
         ref="7 (C12)"),
     "C13": dict(
         text="Lean 4 proof (full modulo distance oracle): ws_pairs_spec, ws_target, ws_untouched, cold_arms_spec - only cold arms change, "
-             "each gets an exact copy of its closest trained arm within the quantile threshold, other arms keep state and status. "
-             "Correspondence on histories with warm_start (cold_arms after every op); twins for idempotence and quantile monotonicity.",
+             "each gets an exact copy of its closest trained arm within the quantile threshold, other arms keep state and status; "
+             "quantileLin_mono + ws_monotone_in_quantile (numpy's linear-interpolation quantile is monotone, so the warm-started set grows "
+             "with the quantile), ws_idempotent (repeating the call returns the same state). Correspondence on histories with warm_start "
+             "(cold_arms after every op); twins for idempotence, monotonicity and the exact-copy law (scale=True included).",
         ref="7 (C13)"),
     "C14": dict(
         text="Lean 4 proof (full except TreeBandit): fit_binarizer_once / partialFit_binarizer_once for every binarizer function, "
@@ -124,8 +145,10 @@ CHECKS = {
         ref="7 (C19)"),
     "C20": dict(
         text="Lean 4 proof (full for context-free policies, exact arithmetic): fit_perm / partialFit_perm (any row permutation gives the "
-             "identical state), shift_greedy, shift_ucb, shift_softmax_invariant, addXty_scale. Relabelling is the model's parametricity "
-             "(not machine-checked) tied by int<->str<->float relabelled twins; permuted / shifted / scaled twins on the code.",
+             "identical state), shift_greedy, shift_ucb, shift_softmax_invariant, addXty_scale; run_relabel / init_run_relabel / "
+             "warmStart_relabel / predictExp_relabel / predict_relabel (every history, warm start and prediction of every learning policy "
+             "commutes with a one-to-one relabelling: same values under the renamed keys, same draws). Tied by int<->str<->float "
+             "relabelled twins; permuted (incl. > 2^10 rows, scale=True) / shifted / scaled twins on the code.",
         ref="7 (C20)"),
 }
 for _c in CHECKS.values():
